@@ -44,10 +44,39 @@ def exact_inputs(angle, tol):
     return e, rn * ((1 << e) // rd), tn * ((1 << e) // td)
 
 
-def slack(angle):
-    """Absolute error (radians) that the three roundings before the loop can introduce:
-    |angle|/2pi periods times |fl(2pi) - 2pi| (2.5e-16), plus the roundings of the two divisions."""
-    return Fraction(abs(angle)) / (1 << 53) + Fraction(1, 1 << 48)
+U = Fraction(1, 1 << 53)   # unit round-off of binary64
+
+
+def float_model(angle, tol):
+    """Exact-rational check of the hypotheses of `C19.result_within_float` for this input: returns
+    (kk, list of violated hypotheses). kk = number of periods removed by the float `%`."""
+    P = Fraction(math.pi)
+    a_f = angle % (2 * math.pi)
+    a1 = Fraction(a_f)
+    A = Fraction(angle)
+    kk = Fraction(round((A - a1) / (2 * P)))      # the integer number of periods removed
+    bad = []
+    if abs(A - kk * 2 * P - a1) > U * 2 * P:        # exact for A >= 0; one rounded addition for A < 0
+        bad.append("float %%: |a' - (A - k 2P)| = %.3e above u*2P" % float(abs(A - kk * 2 * P - a1)))
+    if not (PI * (1 - U) <= P <= PI * (1 + U)):
+        bad.append("np.pi is not pi within relative 2^-53")
+    if not (0 <= a1 <= 2 * P):
+        bad.append("angle %% 2pi outside [0, 2 fl(pi)]")
+    rest = Fraction(a_f / math.pi)
+    eta = Fraction(1, 1 << 1075) * P                  # gradual underflow: absolute error of a denormal quotient
+    if abs(rest * P - a1) > U * a1 + eta:
+        bad.append("division angle/pi: error above 2^-53 relative + 2^-1075 absolute")
+    tol_pi = Fraction(tol / math.pi)
+    if tol_pi * P > Fraction(tol) * (1 + U):
+        bad.append("division tol/pi: relative error above 2^-53")
+    return kk, bad
+
+
+def slack(angle, tol=0.0):
+    """the explicit error term of `C19.result_within_float` beyond tol (radians):
+    4 tol u + 8 pi u (1+u) + 2 |kk| u pi"""
+    kk, _ = float_model(angle, tol if tol else 1e-4)
+    return 4 * Fraction(tol) * U + 8 * PI * U * (1 + U) + 2 * abs(kk) * U * PI
 
 
 def oracle(angle, tol, nds):
@@ -64,9 +93,9 @@ def oracle(angle, tol, nds):
     x = s * PI - Fraction(angle)
     k = round(x / TWO_PI)
     err = abs(x - k * TWO_PI)
-    bound = Fraction(tol) + slack(angle)
+    bound = Fraction(tol) + slack(angle, tol)
     if err > bound:
-        return "error %.3e rad > tol %.3e (+%.1e rounding slack)" % (float(err), tol, float(slack(angle)))
+        return "error %.3e rad > tol %.3e (+%.1e rounding slack)" % (float(err), tol, float(slack(angle, tol)))
     return None
 
 
